@@ -511,7 +511,9 @@ func (sf IntLatLngSnapper) MinEdgeVertexSeparation() s1.Angle {
 // SnapPoint returns a candidate snap site for the given point.
 func (sf IntLatLngSnapper) SnapPoint(point Point) Point {
 	input := LatLngFromPoint(point)
-	lat := s1.Angle(roundAngle(input.Lat * sf.from))
-	lng := s1.Angle(roundAngle(input.Lng * sf.from))
-	return PointFromLatLng(LatLng{lat * sf.to, lng * sf.to})
+	// Snap to the nearest multiple of 10**-exponent degrees. (The scaled
+	// values do not fit in 32 bits for exponents of 8 and above.)
+	lat := s1.Angle(roundAngle(s1.Angle(input.Lat.Degrees()) * sf.from))
+	lng := s1.Angle(roundAngle(s1.Angle(input.Lng.Degrees()) * sf.from))
+	return PointFromLatLng(LatLngFromDegrees(float64(lat*sf.to), float64(lng*sf.to)))
 }
